@@ -173,8 +173,13 @@ def tie(ctx):
     cases = []
     ngenes = 5 if quick else 40
     genes = [make_gene(r) for _ in range(ngenes)]
+    # genes without any structural allele (no copy-number model: two copies are assumed): the guards hold for them too
+    n_plain = 1 if quick else 8
+    genes += [gen_gene.gen_gene(r, pseudogene=False, deletion=False, fusions=0, custom=False, offsets=(10000, 20000), allow_mnp=False) for _ in range(n_plain)]
     for gi, y in enumerate(genes):
         for sc in SCENARIOS:
+            if sc == "pseudogene_only" and gi >= ngenes:
+                continue
             for user in (False, True):
                 cases.append({"gene_index": gi, "scenario": sc, "user_structure": user, "simple": r.random() < 0.5})
     reqs, results = [], []
